@@ -39,8 +39,7 @@ class BoundedExecutor(TraceExecutor):
         self.steps = 0
 
     def _execute_command(self, subroutine_id, command):
-        self.steps += 1
-        if self.steps > 4 * STEP_BOUND:
+        if self.steps + 1 > 4 * STEP_BOUND:
             raise StepBound()
         return super()._execute_command(subroutine_id, command)
 
